@@ -53,20 +53,22 @@ def main(ctx: Ctx):
     per = None if T else {'thread': 10 ** 6, 'process': 5, 'remote': 4}
     cases, _ = landing.plan(ctx, meta, progs, ['r', 'u', 'b'], ['raise', 'terminate', 'kill'], per_prog=per)
     recs = landing.run_cases(ctx, cases)
-    for i, rec in enumerate(recs):
+    def evaluate(c, rec):
         r = rec['real']
-        ctx.case((rec['prog'], rec['target'], rec['k'], rec['mode']), rec['k'] is not None,
-                 sample=landing.describe(rec) if i % 61 == 0 else None)
-        ctx.count(f'{inject.KINDS[rec["prog"]][2]}:{rec["mode"]}')
-        landing.correspond(ctx, rec)
+        landing.correspond(c, rec)
         if r.get('ctor') != 'ok' or 'obs' not in r:
-            continue
+            return
         if not r.get('dead'):
-            continue          # not observed dead: nothing to say for C01 (C04 covers liveness)
+            return            # not observed dead: nothing to say for C01 (C04 covers liveness)
         f = shape_fail(r['obs'])
         if f:
             kind = inject.KINDS[rec['prog']][2]
-            ctx.fail(f'{f[0]}:{kind}:target={rec["target"]}:{rec["mode"]}', f'{rec["prog"]} target={rec["target"]} event {rec["mode"]} at line event {rec["k"]}: {f[1]}', landing.describe(rec))
+            c.fail(f'{f[0]}:{kind}:target={rec["target"]}:{rec["mode"]}', f'{rec["prog"]} target={rec["target"]} event {rec["mode"]} at line event {rec["k"]}: {f[1]}', landing.describe(rec))
+    for i, rec in enumerate(recs):
+        ctx.case((rec['prog'], rec['target'], rec['k'], rec['mode']), rec['k'] is not None,
+                 sample=landing.describe(rec) if i % 61 == 0 else None)
+        ctx.count(f'{inject.KINDS[rec["prog"]][2]}:{rec["mode"]}')
+        landing.judge(ctx, rec, evaluate)
     # ---- results / exceptions that cannot be rebuilt by the parent; kill while sending a big result
     sess = inject.Session()
     try:
